@@ -35,9 +35,10 @@ static void emit_update(const std::vector<int>& ids, const Item& it) {
   Coupon c{0, 0}; bool counted = ref_coupon(it, c);
   for (int id : ids) do_update(*obj[id].s, it);
   for (int pass = 0; pass < 2; pass++) {
-    std::vector<int> sel, m, sv; std::vector<bool> em;
+    std::vector<int> sel, m, sv; std::vector<bool> em; std::string ph = "[";
     for (int id : ids) if ((int)obj[id].restored == pass) {
       sel.push_back(id); em.push_back(obj[id].s->is_empty());
+      if (counted) { if (ph.size() > 1) ph += ","; ph += phys(*obj[id].s, c.addr, false); }
       if (obj[id].s->get_lg_config_k() > 16) { m.push_back(mode_light(*obj[id].s)); sv.push_back(-1); continue; }   // registers only at Obs
       View v = view(*obj[id].s);
       m.push_back(v.mode);
@@ -46,7 +47,7 @@ static void emit_update(const std::vector<int>& ids, const Item& it) {
     if (sel.empty()) continue;
     Ev e(counted ? "Update" : "UpdateIgnored");
     e.il("ids", sel).str("ty", TYPES[it.type]);
-    if (counted) e.raw("c", "[" + std::to_string(c.addr) + "," + std::to_string(c.val) + "]").il("sv", sv);
+    if (counted) e.raw("c", "[" + std::to_string(c.addr) + "," + std::to_string(c.val) + "]").il("sv", sv).raw("ph", ph + "]");
     e.il("m", m).raw("em", bools(em));
     if (pass) e.b("restored", true);
     e.emit(); g_budget--;
